@@ -36,7 +36,14 @@ def walk_positions(doc_block, d, errs, path="root"):
     if (pos.get("line"), pos.get("column")) != doc_block.pos:
         errs.append((path + "/" + doc_block.type, "opener recorded %r written %r" % ((pos.get("line"), pos.get("column")), doc_block.pos)))
     counts = {}
-    for it in doc_block.items:
+    # a non-repeatable keyword written twice: the dictionary keeps the LAST value, so the recorded position is the last one's
+    last_of = {}
+    for idx, it in enumerate(doc_block.items):
+        if isinstance(it, docs.Item) and it.kind == "attr" and not it.repeated:
+            last_of[it.key] = idx
+    for idx, it in enumerate(doc_block.items):
+        if isinstance(it, docs.Item) and it.kind == "attr" and not it.repeated and last_of.get(it.key) != idx:
+            continue
         if isinstance(it, docs.Block):
             if it.singleton:
                 sub = d.get(it.type)
@@ -91,7 +98,10 @@ def first_enum_item(b):
         elif it.shape.startswith("enum:") and it.kind == "attr" and it.tokens[1].kind == "enum" \
                 and it.key not in docs.object_types() \
                 and all(x.shape.startswith("enum:") for x in docs.slot_items(b.type) if x.key == it.key):
-            return (b, it)          # a keyword whose ONLY alternatives are enumerated words: any other word is a fault
+            # a keyword whose ONLY alternatives are enumerated words: any other word is a fault.  When the keyword is
+            # written twice in the block (same token objects) the last occurrence is the one the dictionary keeps
+            last = [x for x in b.items if isinstance(x, docs.Item) and x.key == it.key and x.kind == "attr"][-1]
+            return (b, last)
     return None
 
 
@@ -99,6 +109,20 @@ def run(ctx):
     rng = ctx.rng
     n_docs = ctx.budget(250, 3000)
     documents = harness.gen_documents(rng, n_docs)
+    import copy as _copy
+
+    def blocks_of(b):
+        yield b
+        for x in b.items:
+            if isinstance(x, docs.Block):
+                yield from blocks_of(x)
+    for doc in documents:
+        if rng.random() < 0.4:
+            for root in (doc if isinstance(doc, list) else [doc]):
+                b = rng.choice(list(blocks_of(root)))
+                simple = [x for x in b.items if isinstance(x, docs.Item) and x.kind == "attr" and not x.repeated]
+                if simple:
+                    b.items.append(_copy.copy(rng.choice(simple)))      # the keyword a second time, later in the block
     cases = []
     for doc in documents:
         lay = harness.random_layout(rng)
@@ -143,6 +167,17 @@ def run(ctx):
             ctx.violation("position:" + pth.split("/")[-1], "recorded position differs from where the keyword was written: %s %s" % (pth, what),
                           {"text": text, "path": pth, "detail": what})
     ctx.count("position_documents", n_pos)
+    # a keyword spelled like an entry of the position record itself (found by the universal provenance proof)
+    for kw in ("LINE", "COLUMN"):
+        text = "MAP\n  %s 5\nEND" % kw
+        ctx.note_case(text)
+        try:
+            d = sweep.fast_loads(text, True, False)
+            own = d["__position__"].get(kw.lower())
+            if own != (1 if kw == "LINE" else 1):
+                ctx.violation("position:own-line-overwritten", "the block's own %s in its __position__ record is %r after a keyword spelled %s" % (kw.lower(), own, kw), {"text": text})
+        except Exception as ex:
+            ctx.violation("position:own-line-overwritten", "loads raises %s on a keyword spelled %s" % (type(ex).__name__, kw), {"text": text})
     # ---- hunter: validation message locations for injected faults
     n_fault = 0
     for doc, _ in cases[:ctx.budget(120, 1500)]:
